@@ -29,6 +29,7 @@ const (
 	c06PlainReject
 	c06TooHigh
 	c06DupIgnored
+	c06DontCare
 )
 
 type c06Defects struct {
@@ -59,11 +60,14 @@ func c06Apply(r *verifRig, m *Message, d c06Defects, T int) (S int, sReadable bo
 	case 6:
 		m.Header.SetString(tagTargetCompID, "")
 	}
+	sent := time.Now().UTC()
 	switch d.d52 {
 	case 1:
-		m.Header.SetField(tagSendingTime, FIXUTCTimestamp{Time: time.Now().UTC().Add(-200 * time.Second)})
+		sent = sent.Add(-200 * time.Second)
+		m.Header.SetField(tagSendingTime, FIXUTCTimestamp{Time: sent})
 	case 2:
-		m.Header.SetField(tagSendingTime, FIXUTCTimestamp{Time: time.Now().UTC().Add(200 * time.Second)})
+		sent = sent.Add(200 * time.Second)
+		m.Header.SetField(tagSendingTime, FIXUTCTimestamp{Time: sent})
 	case 3:
 		m.Header.Remove(tagSendingTime)
 	case 4:
@@ -90,7 +94,9 @@ func c06Apply(r *verifRig, m *Message, d c06Defects, T int) (S int, sReadable bo
 		sReadable = false
 	}
 	if d.possDup {
-		verifPossDup(m)
+		// a consistent retransmission: OrigSendingTime precedes the (possibly shifted) SendingTime
+		m.Header.SetBool(tagPossDupFlag, true)
+		m.Header.SetField(tagOrigSendingTime, FIXUTCTimestamp{Time: sent.Add(-time.Minute)})
 	}
 	return
 }
@@ -132,6 +138,12 @@ func c06Expect(d c06Defects, recovering, latencyOff bool, validatorRejects bool)
 		return c06PlainReject, 6, 34
 	case 1:
 		if d.possDup {
+			if d.d52 == 3 || d.d52 == 4 {
+				// a duplicate whose SendingTime is absent or malformed while latency checking is off or a replay is in
+				// progress: the duplicate handling reads SendingTime itself and rejects; FIX does not say whether the
+				// duplicate rule or the malformed-field rule wins here, so only the callback gate is asserted
+				return c06DontCare, 0, 0
+			}
 			return c06DupIgnored, 0, 0
 		}
 		return c06LogoutOnly, 0, 0
@@ -256,6 +268,9 @@ func VerifHarness_C06_gate() {
 	case c06TooHigh:
 		verifCase("too-high")
 		verifAssert(T1 == T && nRej == 0 && nLogout == 0, "too-high-not-consumed")
+	case c06DontCare:
+		verifCase("duplicate-with-unreadable-sendingtime")
+		verifAssert(callbacks == 0, "callback-only-after-all-session-checks")
 	case c06DupIgnored:
 		verifCase("duplicate-ignored")
 		verifAssert(T1 == T && nLogout == 0 && nRej == 0, "possdup-too-low-ignored")
